@@ -82,6 +82,29 @@ PROPS["C13"] = dict(
     assumptions=ASSUME_COMMON,
 )
 
+PROPS["C08"] = dict(
+    units=[dict(name="c08", src="props/c08.cpp", deps=["lib/pwc.hpp"], fuzz=dict(seconds=60))],
+    rule="3/4 of the cases: chain of 1..30 multi_channel_refine_weights calls (1..40 channels, generated weights incl. "
+         "zeros and unnormalised, data all-zero / single / equal / uniform / over +-15 (float) or +-100 decades, beta in "
+         "(0,1], minimum weight in [0,1/n)); 1/4: real hep::multi_channel run (1..6 piecewise-constant channels, user "
+         "or default weights, 2..6 iterations of 0..320 calls, integrand zero below a threshold); non-trivial: >= 2 "
+         "channels with unequal data and (floor active or disabled channel or chain >= 2), for runs: weights changed "
+         "and (disabled channel or floor or an iteration without information); distinct = distinct description",
+    quick=dict(shards=8, cases=4000),
+    thorough=dict(shards=16, cases=200000),
+    floors={"zero-information-step": 0.05, "floor-active": 0.1, "disabled-channel": 0.1, "chain>=2": 0.2,
+            "run-level": 0.1, "run-iteration-without-information": 0.005},
+    level_text="generated refinement chains and real multi-channel runs; invariants after every step (finite, >= 0, "
+               "sum 1 within 4 n eps, zero stays zero, all-zero data leave the weights bit-identical) plus a long-double "
+               "reference model of w_i W_i^beta -> normalise -> clamp to the minimum -> normalise ((8 + 2 n) eps relative, "
+               "lower bound min/(1+n min)); exploration over generated inputs and histories",
+    level_note="trusted: the long double model; positive weights and data are kept inside [10^-15,10^15] (float) / "
+               "[10^-100,10^100] so that products do not underflow; an enabled channel whose datum is zero is only "
+               "held to the vector invariants (the property says no more)",
+    technique="rapidcheck + libFuzzer over choice tapes; reference model + invariants over refinement chains and real runs",
+    assumptions=ASSUME_COMMON,
+)
+
 NOT_APPLICABLE = {}
 
 ENGINES = [
